@@ -50,7 +50,12 @@ def cases(draw, tier):
         knees = [1, n - 2] if n - 2 > 1 else [1, 2]
     return {'family': c['family'], 'pts': c['pts'], 'knees': knees, 'linkage': draw(st.sampled_from(LINKS)),
             't': draw(st.sampled_from([0.01, 0.05, 0.1, 0.2, 0.3, 0.5, 0.8])), 'mode': draw(st.sampled_from(MODES)),
-            'int_points': draw(st.booleans())}
+            'int_points': draw(st.booleans()),
+            # designed ranking scores for the selection-rule sub-test (see oracle): base values and the
+            # relative gap between the best and the second best member of a cluster
+            'stub_vals': draw(st.lists(st.integers(1, 97), min_size=12, max_size=12)),
+            'stub_gap': draw(st.sampled_from([0.0, 1e-15, 1e-12, 1e-10, 1e-8, 1e-7, 1e-6, 1e-5, 1e-4, 1e-2])),
+            'stub_best': draw(st.integers(0, 11)), 'stub_second': draw(st.integers(0, 11))}
 
 
 def pearson_r2(xs, ys):
@@ -182,6 +187,39 @@ def oracle(case, rec):
                         rec.check(not got, 'hull:member-from-cluster-without-hull-point', (got, c, sorted(hull)))
                     elif len(c) > 1:
                         rec.nontrivial = True
+    # the selection rule by itself: the ranking function is replaced by a test double that returns
+    # designed scores (best and second best member a chosen relative gap apart, from 1e-15 to 1e-2),
+    # so that "keeps a member attaining the maximum" is also exercised on near-ties that generated
+    # curves practically never contain.  Judged only for clusters the double was actually asked about.
+    if mode != 'hull' and 'stub_vals' in case and any(len(c) > 1 for c in clusters):
+        asked = []
+
+        def double(points_, cluster_, method_):
+            m = len(cluster_)
+            vals = [case['stub_vals'][(i * 5 + m) % 12] / 100.0 for i in range(m)]
+            b, s2 = case['stub_best'] % m, case['stub_second'] % m
+            vals[b] = 0.99
+            if s2 != b:
+                vals[s2] = 0.99 * (1.0 - case['stub_gap'])
+            asked.append(([int(v) for v in cluster_], vals))
+            return np.array(vals, dtype=float)
+        orig = kr.smooth_ranking
+        kr.smooth_ranking = double
+        try:
+            out2 = rec.call(4 * n + 16, pp.filter_clusters, p, knees, link, t, getattr(kr.ClusterRanking, mode), _site='pp.filter_clusters')
+        finally:
+            kr.smooth_ranking = orig
+        if out2 is not FAILED and asked:
+            kept = set(int(v) for v in np.asarray(out2))
+            for c, vals in asked:
+                got = [k for k in c if k in kept]
+                if len(got) == 1:
+                    v = vals[c.index(got[0])]
+                    rec.check(v == max(vals), 'clusters:kept-member-not-max-of-designed-scores',
+                              'cluster %r designed scores %r kept %d (score %r, gap %r)' % (c, vals, got[0], v, case['stub_gap']))
+            rec.tag('selection-double:used')
+        elif out2 is not FAILED:
+            rec.tag('selection-double:not-called')
     # corner variant
     out = rec.call(4 * n + 16, pp.filter_clusters_corners, p, knees, link, t, _site='pp.filter_clusters_corners')
     if out is not FAILED:
